@@ -209,7 +209,7 @@ fn c06_nopanic_pre_addressed() {
 	kani::cover!(true, "returned");
 }
 
-// @verif property=C06 tier=quick mem=24 timeout=2400
+// @verif property=C06 tier=thorough mem=24 timeout=2400
 // @encodes peppi::io::slippi::de::parse_event Frame Pre arm: event addressed to follower flag set for a port that does not hold Ice Climbers
 // @symbolic 700 open frame's id and payload; frame id and payload of the event
 // @bound 3.16 state, one occupied port (P2, not Ice Climbers), one open frame, one event; port byte 1 and follower flag true are concrete (a symbolic port index turns every column access into a symbolic pointer: > 19 min)
@@ -226,7 +226,7 @@ fn c06_nopanic_pre_follower_non_ics() {
 	kani::cover!(true, "returned");
 }
 
-// @verif property=C06 tier=quick mem=24 timeout=2400
+// @verif property=C06 tier=thorough mem=24 timeout=2400
 // @encodes peppi::io::slippi::de::parse_event Frame Pre arm: event addressed to a port that is not occupied
 // @symbolic 700 open frame's id and payload; frame id and payload of the event
 // @bound 3.16 state, one occupied port (P2, not Ice Climbers), one open frame, one event; port byte 0 and follower flag false are concrete (a symbolic port index turns every column access into a symbolic pointer: > 19 min)
@@ -260,7 +260,7 @@ fn c06_nopanic_post_addressed() {
 	kani::cover!(true, "returned");
 }
 
-// @verif property=C06 tier=quick mem=24 timeout=2400
+// @verif property=C06 tier=thorough mem=24 timeout=2400
 // @encodes peppi::io::slippi::de::parse_event Frame Post arm: event addressed to follower flag set for a port that does not hold Ice Climbers
 // @symbolic 860 open frame's id and payload; frame id and payload of the event
 // @bound 3.16 state, one occupied port (P2, not Ice Climbers), one open frame, one event; port byte 1 and follower flag true are concrete (a symbolic port index turns every column access into a symbolic pointer: > 19 min)
